@@ -20,8 +20,8 @@ VERIF = os.path.dirname(os.path.dirname(os.path.abspath(__file__)))
 WORK = os.path.join(VERIF, '.work')
 # evidence of runs against a non-default tree (dev-time mutation runs with VQ_REPO) must not
 # overwrite the committed evidence of the real tree
-EVID = os.path.join(VERIF, 'evidence') if os.environ.get('VQ_REPO', '/repo') == '/repo' \
-    else os.path.join(VERIF, '.work', 'evidence-mut')
+EVID = os.environ.get('VQ_EVID_DIR') or (os.path.join(VERIF, 'evidence') if os.environ.get('VQ_REPO', '/repo') == '/repo'
+                                          else os.path.join(VERIF, '.work', 'evidence-mut'))
 REPLAYS = os.path.join(EVID, 'replays')
 
 
